@@ -33,6 +33,24 @@ CLAIMED = {
              "contract: _Framer.add_and_parse and DilatedConnectionProtocol.dataReceived loops (generators), Connector.build_protocol. "
              "Content equality across the multi-packet split is not proved (packet boundaries are).",
         design="6/C12"),
+    "C16": dict(
+        text="TrafficTimer's four inputs are verified through the real transition table against a ghost miss-counter (reconnect exactly "
+             "on the second expiry without traffic; traffic resets; nothing signalled without a connection); Manager timer methods "
+             "over a ghost clock with DelayedCall delay/reset/cancel semantics (deadline <= now + interval after every "
+             "_send_ping_reset_timer; timer cleared before interval_elapsed; pong callback only for outstanding ids; cancel on "
+             "loss/stop; Leader only); end-to-end lemma 'two answered pings then silence => dropped within 3 intervals'.",
+        note="Assumed: reactor clock (callLater due at now+t, delay adds to scheduled time, reset moves to now+s), floats as reals, "
+             "loseConnection is followed by connectionLost. Pong *arrival* is the peer's business.",
+        design="6/C16"),
+    "C17": dict(
+        text="Manager.stop has a row in every state it can arrive in and every stop row ends in STOPPED with the one-shot notification "
+             "or in STOPPING with a disconnect requested; both connection_lost rows of STOPPING notify; Dilator.stop calls "
+             "T.stoppedD at once without a Manager and from when_stopped() otherwise; Connector.stop_everything reaches every "
+             "listener, pending connector and pending connection (loop invariants); an incapable peer errors the main channel with "
+             "OldPeerCannotDilateError for both orders of dilate()/versions and every dict; endpoints wait on the main channel.",
+        note="Assumed: stop() reaches the Manager once; loseConnection => connectionLost eventually; OneShotObserver contract "
+             "(C18). Completion of close() itself is liveness (not decided). Known finding: inbound attempts are not tracked.",
+        design="6/C17"),
 }
 NOT_BUILT = "check not built yet (framework under construction; see DESIGN.md section 11)"
 
